@@ -197,11 +197,13 @@ def ubr_post(path):
             out.append(('C19._update_best_results.pairs', z3.Or(*[pairs(m) for m in maps])))
             out.append(('C19._update_best_results.topk', z3.Or(*[z3.And(pairs(m), topk(m, False)) for m in maps])))
             out.append(('C19._update_best_results.topk.residual', z3.Or(*[z3.And(pairs(m), topk(m, True)) for m in maps])))
-            mono = []
+            mono, mono_res = [], []
             for t0 in range(k):
                 o = c['best'].attrs['rewards'].at(t0)
-                mono.append(z3.Or(X.is_nan(o), *[z3.Or(X.is_nan(rr.at(t)), X.ge(rr.at(t), o)) for t in range(k)]))
+                mono.append(z3.Or(X.is_nan(o), *[z3.And(not_nan(rr.at(t)), X.ge(rr.at(t), o)) for t in range(k)]))
+                mono_res.append(z3.Or(X.is_nan(o), *[z3.Or(X.is_nan(rr.at(t)), X.ge(rr.at(t), o)) for t in range(k)]))
             out.append(('C19._update_best_results.best_never_decreases', z3.And(*mono)))
+            out.append(('C19._update_best_results.best_never_decreases.residual', z3.And(*mono_res)))
         return out
     if not parts:
         # no selection permutation recorded by the argpartition contract: nothing to instantiate the witness with
@@ -222,17 +224,16 @@ def ubr_post(path):
     a, b = rr.at(t), allr(j)
     good = z3.Or(X.is_nan(b), z3.And(not_nan(a), X.ge(a, b)))
     out.append(('C19._update_best_results.topk', z3.Implies(z3.And(rng(t, count), unsel), good)))
+    out.append(('C19._update_best_results.topk.residual', z3.Implies(z3.And(rng(t, count), unsel), z3.Or(good, X.is_nan(a)))))
+    out.append(('C19._update_best_results.pairs.inverse_on_selected', z3.Implies(z3.And(rng(t, count), rng(j, N), p(t) == j), z3.And(rng(q(j), count), p(q(j)) == j))))
     o = c['best'].attrs['rewards'].at(t)
     wit = z3.If(rng(q(zi(B) + t), count), q(zi(B) + t), z3.IntVal(0))
     out.append(('C19._update_best_results.best_never_decreases',
                 z3.Implies(rng(t, count), z3.Or(X.is_nan(o), z3.And(not_nan(rr.at(wit)), X.ge(rr.at(wit), o))))))
-    c['cls'] = {'C19._update_best_results.topk': X.is_nan(a), 'C19._update_best_results.best_never_decreases': X.is_nan(rr.at(wit))}
+    # residual of the NaN finding: the same clause unless the selected reward it talks about is NaN
+    out.append(('C19._update_best_results.best_never_decreases.residual',
+                z3.Implies(rng(t, count), z3.Or(X.is_nan(o), X.is_nan(rr.at(wit)), X.ge(rr.at(wit), o)))))
     return out
-
-
-def ubr_known(name):
-    """witness class of the NaN finding, per obligation instance: the selected reward the clause talks about is NaN."""
-    return lambda path: path.run.c19.get('cls', {}).get(name, z3.BoolVal(False))
 
 
 # ------------------------------------------------------------------------------------------ B. VectorizedOptimizer.__call__
@@ -344,6 +345,9 @@ def call_entry(concrete=None, use_fori=True, prior=True, parallel=True, seeded=T
             d['P'] = 1
         ctx = CallCtx(d)
         run.c19 = ctx
+        if concrete is not None:
+            run.jx_unroll_fori = True
+        J.fact(it, J.ALL(1, lambda e: SIZES(e) >= 1, shape=(d['Dk'],), pats=lambda e: SIZES(e)))     # every categorical feature has a category
         cls = klass(VB, 'VectorizedOptimizer')
         dt = CC(J.DType('float', 'float64'), J.DType('int', 'int32'))
         self = Obj(cls, {'strategy': make_strategy(ctx), 'n_feature_dimensions': CC(d['nc'], d['nk']),
@@ -499,6 +503,27 @@ def call_pyloop_invariant(it, fr, lctx):
 E.LOOPS[(VB, CALL, 1)] = E.LoopSpec(call_pyloop_invariant)
 
 
+def compose_ghost(run, cc, res):
+    """ghost (evaluated?, row) of the final best results when the loop was unrolled: composed along the chain of merges that
+    produced `res` (None when `res` is not the product of such a chain starting at the all-placeholder initial value)."""
+    chain, cur = [], res
+    while getattr(cur, 'merge', None) is not None:
+        chain.append(cur.merge)
+        cur = cur.merge['old']
+    if not chain:
+        return None, None
+    ev = lambda t: z3.BoolVal(False)
+    g = lambda t: z3.Const('row_none', Row)
+    for m in reversed(chain):
+        sc = [s for s in cc.score_calls if s['out'] is m['newr']]
+        if not sc:
+            return None, None
+        idx, Bz, rows = m['idx'], zi(m['B']), sc[0]['rows']
+        ev = (lambda t, idx=idx, Bz=Bz, ev0=ev: z3.If(idx(t) < Bz, z3.BoolVal(True), ev0(idx(t) - Bz)))
+        g = (lambda t, idx=idx, Bz=Bz, rows=rows, g0=g: z3.If(idx(t) < Bz, rows(idx(t)), g0(idx(t) - Bz)))
+    return ev, g
+
+
 def key_root(t):
     while z3.is_app(t) and t.num_args() > 0 and t.decl().name() in ('jx_split', 'jx_fold_in'):
         t = t.arg(0)
@@ -529,8 +554,8 @@ def call_post(path):
     out.append((N + 'padding_never_leaks.categorical', z3.Implies(z3.And(gk, e >= zi(nk)), rk.at(t, p, e) == 0)))
     ev, g = getattr(cc, 'ghost', (None, None))
     if ev is None:
-        out.append((N + 'reward_is_score_of_candidate.residual', z3.BoolVal(False)))
-    else:
+        ev, g = compose_ghost(run, cc, res)
+    if ev is not None:
         evaluated = lambda tt: z3.And(rr.at(tt) == SCORE(g(tt)), z3.Implies(z3.And(rng(p, P), rng(e, Dc)), rc.at(tt, p, e) == ROWC(g(tt), p, e)),
                                       z3.Implies(z3.And(rng(p, P), rng(e, Dk)), rk.at(tt, p, e) == ROWK(g(tt), p, e)))
         out.append((N + 'reward_is_score_of_candidate.residual', z3.Implies(z3.And(rng(t, count), rr.at(t) != X.ninf), evaluated(t))))
@@ -587,11 +612,8 @@ def call_post(path):
                     z3.Implies(z3.And(rng(b, nb), rng(p, P), rng(e, Dc), e < zi(nc)), cont_of(pf).at(b, p, e) == pc.at(b * zi(P) + p, e)),
                     z3.Implies(z3.And(rng(b, nb), rng(p, P), rng(e, Dk), e < zi(nk)), cat_of(pf).at(b, p, e) == pk.at(b * zi(P) + p, e)))))
                 # known finding: the prior rewards never reach the best results
-                if ev is not None:
-                    tw = sk(run, 'tw')
-                    out.append((N + 'not_worse_than_best_prior', z3.Implies(
-                        z3.And(rng(b, nb), b < nvalid, z3.Not(X.is_nan(pr.at(b)))),
-                        z3.And(rng(tw, count), X.ge(rr.at(tw), pr.at(b))))))
+                out.append((N + 'not_worse_than_best_prior', z3.Implies(
+                    z3.And(rng(b, nb), b < nvalid, z3.Not(X.is_nan(pr.at(b)))), QE(count, lambda tw: X.ge(rr.at(tw), pr.at(b))))))
         elif pf is not None or pr is not None:
             out.append((N + 'prior_features_reach_the_strategy', z3.BoolVal(False)))
     # randomness: every key handed out is derived by split/fold_in from the seed argument (or PRNGKey(0) when none is given, or
@@ -631,6 +653,7 @@ class Prover:
     def __init__(self, chk, tier):
         self.chk, self.tier = chk, tier
         self.timeout_ms = 6000 if tier == 'quick' else 30000
+        self.observer = None
 
     def _collect(self, entries, post, skip=(), setup=None, timeout_ms=None, want_model=False):
         inst, unsupported = {}, []
@@ -640,6 +663,12 @@ class Prover:
             for pi, p in enumerate(E.explore(entry, max_paths=400, timeout_ms=1500, deadline_s=120)):
                 if p.kind == 'unsupported':
                     unsupported.append('%s: %s' % (label, p.describe()))
+                    continue
+                if self.observer is not None and not want_model:
+                    self.observer(label, p)
+                v0, _, _ = E.discharge(p.run, z3.BoolVal(False), timeout_ms=1500)
+                if v0 == 'unsat':
+                    unsupported.append('%s: the assumptions of path %d (%s) are inconsistent (vacuous proof)' % (label, pi, p.kind))
                     continue
                 obs = [(n, f, npc, nax) for (n, f, npc, nax, info) in p.run.obligations]
                 if post is not None and p.kind in ('return', 'raise'):
@@ -866,7 +895,32 @@ def suggest_post(path):
         (N + 'result_shapes', z3.And(shape_eq(fc.shape, (d['B'], d['P'], d['Dc'])), shape_eq(fk.shape, (d['B'], d['P'], d['Dk'])))),
         (N + 'continuous_in_unit_cube_or_nan', z3.Implies(z3.And(rng(i, d['B']), rng(p, d['P']), rng(e, d['Dc'])), unit_or_nan(fc.at(i, p, e)))),
         (N + 'categorical_valid', z3.Implies(z3.And(rng(i, d['B']), rng(p, d['P']), rng(e, d['Dk'])), catv(fk.at(i, p, e), sizes.at(e)))),
+        (N + 'randomness_only_from_seed', keys_from_seed(run)),
     ]
+
+
+def keys_from_seed(run):
+    """every PRNG key consumed (split / uniform / laplace / categorical) on this path derives from the `seed` argument."""
+    seed = z3.Const('seed', J.Key)
+    uses = getattr(run, 'jx_key_uses', [])
+    return z3.BoolVal(all(J.is_key(k) and key_root(k).eq(seed) for _, k in uses))
+
+
+class PathIt:
+    """just enough of an Interp for the lazy parts of the array model after a path has finished"""
+
+    def __init__(self, run):
+        self.run, self.pure = run, 0
+
+
+def suggest_classes(path):
+    """value classes of the continuous features returned on this path (abstract interpretation, see jx_model)."""
+    if path.kind != 'return':
+        return None
+    try:
+        return J.kinds(cont_of(path.value), PathIt(path.run))
+    except (AttributeError, KeyError):
+        return None
 
 
 def inb_features(f, d, sizes, n, guard=None):
@@ -905,7 +959,7 @@ def state_post(prefix):
         st = path.value
         if not (isinstance(st, Obj) and 'features' in st.attrs and 'perturbations' in st.attrs):
             return [(prefix + 'state_structure', z3.BoolVal(False))]
-        return [(prefix + cl.name, cl.goal(path.run)) for cl in eagle_inv(st, c.d, c.sizes)]
+        return [(prefix + cl.name, cl.goal(path.run)) for cl in eagle_inv(st, c.d, c.sizes)] + [(prefix + 'randomness_only_from_seed', keys_from_seed(path.run))]
     return post
 
 
@@ -983,6 +1037,7 @@ def sampler_post(path):
         return [(N + 'result_shapes', z3.BoolVal(False))]
     out = [(N + 'result_shapes', z3.And(shape_eq(fc.shape, (d['n'], d['P'], d['Dc'])), shape_eq(fk.shape, (d['n'], d['P'], d['Dk']))))]
     out += [(N + cl.name, cl.goal(path.run)) for cl in inb_features(f, d, sizes, d['n'])]
+    out.append((N + 'randomness_only_from_seed', keys_from_seed(path.run)))
     return out
 
 
@@ -1121,6 +1176,7 @@ def random_post(path):
         declared = z3.BoolVal(False)
     out.append(('C19.random.declares_real_feature_counts', declared))
     out.append(('C19.random.declares_real_feature_counts.residual', z3.Implies(nopad, declared)))
+    out.append((N + 'randomness_only_from_seed', keys_from_seed(path.run)))
     return out
 
 
@@ -1188,3 +1244,407 @@ def factory_post(path):
         except (AttributeError, KeyError) as ex:
             out.append((N + 'strategy_class_invariant', z3.BoolVal(False)))
     return out
+
+
+# ------------------------------------------------------------------------------------------ native replay
+def run_native(script, args, payload=None, timeout=600):
+    env = dict(os.environ)
+    env['VERIF_REPO'] = source.REPO
+    try:
+        p = subprocess.run([VENV_PY, script] + list(args), input=json.dumps(payload) if payload is not None else None, capture_output=True,
+                           text=True, timeout=timeout, env=env, cwd=VERIF)
+    except subprocess.TimeoutExpired:
+        return {'error': 'native run timed out'}
+    for line in reversed((p.stdout or '').strip().splitlines()):
+        if line.startswith('{'):
+            try:
+                return json.loads(line)
+            except ValueError:
+                break
+    return {'error': 'native driver produced no result: rc=%s %s' % (p.returncode, ((p.stderr or '') + (p.stdout or ''))[-600:])}
+
+
+def xval(m, t):
+    v = X.model_value(m, t)
+    return 'nan' if v != v else 'inf' if v == float('inf') else '-inf' if v == float('-inf') else v
+
+
+def ubr_replay(name, rec):
+    """concrete arrays of the twin's counter-model -> the real _update_best_results -> the section A specification."""
+    m, run = rec['model'], rec['run']
+    c = run.c19
+    d = {k: conc(v) for k, v in c['d'].items()}
+    iv = lambda t: m.eval(t, model_completion=True).as_long()
+    rows_c = lambda f, n: [[[xval(m, cont_of(f).at(i, p, e)) for e in range(d['Dc'])] for p in range(d['P'])] for i in range(n)]
+    rows_k = lambda f, n: [[[iv(cat_of(f).at(i, p, e)) for e in range(d['Dk'])] for p in range(d['P'])] for i in range(n)]
+    payload = {'count': d['count'], 'P': d['P'], 'Dc': d['Dc'], 'Dk': d['Dk'],
+               'new_rewards': [xval(m, c['newr'].at(i)) for i in range(d['B'])], 'new_cont': rows_c(c['newf'], d['B']), 'new_cat': rows_k(c['newf'], d['B']),
+               'best_rewards': [xval(m, c['best'].attrs['rewards'].at(i)) for i in range(d['count'])],
+               'best_cont': rows_c(c['best'].attrs['features'], d['count']), 'best_cat': rows_k(c['best'].attrs['features'], d['count'])}
+    res = run_native(REPLAY, ['ubr'], payload)
+    clause = name.split('C19._update_best_results.')[-1]
+    key = clause if clause in res.get('clauses', {}) else clause.split('.')[0]
+    reproduced = (res.get('clauses', {}).get(key) is False) if 'clauses' in res else None
+    return {'driver': 'replay/c19_replay.py ubr', 'input': payload, 'native': res}, reproduced
+
+
+BATTERY = {}
+CLAUSE_OF = {     # obligation-name fragment -> clause name checked by the native battery
+    'continuous_in_unit_cube': 'continuous_in_unit_cube', 'continuous_not_nan': 'continuous_in_unit_cube', 'pool_continuous': 'continuous_in_unit_cube',
+    'categorical': 'categorical_is_valid_category_index', 'padding_never_leaks.continuous': 'padding_never_leaks.continuous',
+    'padding_never_leaks.categorical': 'padding_never_leaks.categorical', 'padding_zero': 'padding_never_leaks.continuous',
+    'reward_is_score': 'reward_is_score_of_candidate.residual', 'row_is_the_stored': 'reward_is_score_of_candidate.residual',
+    'count': 'returns_requested_count', 'shapes': 'returns_requested_count', 'randomness': 'same_seed_same_result',
+    'zero_padding': 'padding_never_leaks.continuous', 'update_receives': 'reward_is_score_of_candidate.residual',
+}
+
+
+def battery_replay(name, rec):
+    """directed native search: the end-to-end battery on the real optimizer; reproduced iff the clause this obligation feeds fails."""
+    if 'res' not in BATTERY:
+        BATTERY['res'] = run_native(REPLAY, ['battery'], timeout=900)
+    res = BATTERY['res']
+    if 'violated' not in res:
+        return {'driver': 'replay/c19_replay.py battery', 'native': res}, None
+    clause = None
+    for frag, cl in CLAUSE_OF.items():
+        if frag in name:
+            clause = cl
+            break
+    hit = res['violated'].get(clause) if clause else None
+    if hit is None and res['violated']:
+        # any clause newly violated end-to-end (the recorded findings account for the rest)
+        new = {k: v for k, v in res['violated'].items() if k not in ('nan_never_preferred', 'padding_never_leaks.continuous') or
+               (k == 'padding_never_leaks.continuous' and v.get('strategy') != 'random')}
+        new = {k: v for k, v in new.items() if not (k == 'returns_requested_count' and v.get('strategy') == 'random' and v.get('feature_padding'))}
+        if new:
+            clause, hit = sorted(new.items())[0]
+    known_noise = hit is not None and ((clause == 'padding_never_leaks.continuous' and hit.get('strategy') == 'random') or
+                                       (clause == 'returns_requested_count' and hit.get('strategy') == 'random' and hit.get('feature_padding')))
+    if known_noise:
+        hit = None
+    return {'driver': 'replay/c19_replay.py battery', 'clause': clause, 'failing_input': hit, 'runs': res.get('runs')}, (True if hit else False)
+
+
+# ------------------------------------------------------------------------------------------ E. determinism (read frame)
+FRAME_ENTRIES = [
+    dict(name='VectorizedOptimizer.__call__', kind='object', mod=VB, cls='VectorizedOptimizer', seeds=(), methods=(('__call__', ('seed',)),),
+         factories=(), randomized=True),
+    dict(name='VectorizedEagleStrategy', kind='object', mod=ES, cls='VectorizedEagleStrategy', seeds=(),
+         methods=(('init_state', ('seed',)), ('suggest', ('seed',)), ('update', ('seed',))), factories=(), randomized=True),
+    dict(name='DefaultRandomSampler.__call__', kind='object', mod=ES, cls='DefaultRandomSampler', seeds=(), methods=(('__call__', ('seed',)),),
+         factories=(), randomized=True),
+    dict(name='RandomVectorizedStrategy', kind='object', mod=RV, cls='RandomVectorizedStrategy', seeds=(),
+         methods=(('suggest', ('seed',)),), factories=(), randomized=True),
+]
+
+
+def frame_obligations(chk):
+    """no ambient nondeterminism (time, global RNGs, uuid, set iteration ...) is reachable from the optimizer and the strategies;
+    the only randomness is jax.random fed from the seed argument (class-aware call-graph closure over the real AST)."""
+    from contracts import c14
+    chk.trust('pyvc.readframe abstract interpreter (class-aware closure, taint, guard evaluation) as used by C14')
+    for entry in FRAME_ENTRIES:
+        t0 = time.time()
+        try:
+            s, found, converged, methods, missing = c14.analyse(entry)
+        except Exception as ex:          # analyser failure is a checker error, never a verdict
+            chk.error('C19.%s.frame' % entry['name'], 'read-frame analysis failed: %r' % (ex,))
+            continue
+        amb, seedv, assumptions = c14.decide(entry, s, found)
+        dt = time.time() - t0
+        for a in assumptions[:6]:
+            chk.assume('%s: %s' % (entry['name'], a))
+        fn = entry['name']
+        if missing:
+            chk.obligation('C19.%s.frame_entry' % fn, fn, 'frame', report.ERROR, dt, detail='methods / seed parameters not found: %s' % missing)
+            continue
+        if not converged:
+            chk.obligation('C19.%s.no_ambient_nondeterminism' % fn, fn, 'frame', report.UNDECIDED, dt, detail='fixpoint not reached')
+            continue
+        detail = {'methods': methods, 'functions_in_closure': s.get('functions', None) if isinstance(s, dict) else None}
+        if amb:
+            chk.obligation('C19.%s.no_ambient_nondeterminism' % fn, fn, 'frame', report.VIOLATED, dt, detail=dict(detail, ambient=amb[:6]),
+                           model='\n'.join(str(a) for a in amb[:10]), replay={'driver': 'replay/c19_replay.py battery', 'clause': 'same_seed_same_result'},
+                           reproduced=None)
+        else:
+            chk.obligation('C19.%s.no_ambient_nondeterminism' % fn, fn, 'frame', report.PROVED, dt, detail=detail)
+        if seedv:
+            chk.obligation('C19.%s.seed_reaches_every_rng' % fn, fn, 'frame', report.VIOLATED, 0.0, detail={'violations': seedv[:6]},
+                           model='\n'.join(seedv[:10]), replay={'driver': 'replay/c19_replay.py battery', 'clause': 'same_seed_same_result'}, reproduced=None)
+        else:
+            chk.obligation('C19.%s.seed_reaches_every_rng' % fn, fn, 'frame', report.PROVED, 0.0, detail={'seed_parameters': found})
+
+
+# ------------------------------------------------------------------------------------------ conformance of the assumed contracts
+CONTRACT_USERS = {
+    'argpartition': 'C19._update_best_results.topk.residual, C19._update_best_results.pairs.*',
+    'argsort': 'C19.eagle.init_state.* (prior path: _mask_flip)', 'argmin_argmax': 'C19.eagle.init_state.populate.*',
+    'clip': 'C19.eagle.DefaultProjection.*, C19.eagle.suggest.continuous_in_unit_cube_or_nan',
+    'maximum_minimum': 'C19.eagle.suggest.continuous_not_nan[*]', 'nan_to_num': 'C19.eagle.suggest.continuous_not_nan[MEAN]',
+    'float_predicates': 'C19.eagle.init_state.*, C19.eagle.suggest.continuous_not_nan[*]', 'ieee_specials_in_arithmetic': 'every obligation over rewards / logits',
+    'where_concatenate_reshape': 'all sections', 'broadcasting': 'all sections', 'traced_index': 'C19._update_best_results.pairs.*, C19.eagle.*',
+    'at_set_add': 'C19.eagle.suggest.categorical_valid, C19.eagle.init_state.populate.*', 'dynamic_slice_in_dim': 'C19.eagle.suggest.*, C19.eagle.update.*',
+    'dynamic_update_slice_in_dim': 'C19.eagle.update.*', 'cond': 'C19.eagle.suggest.*, C19.eagle.update.*, C19.eagle.init_state.populate.*',
+    'fori_loop': 'C19.__call__.loop.*, C19.eagle.init_state.populate.*', 'vmap': 'C19.eagle.suggest.categorical_valid',
+    'tree_map': 'C19.__call__.*, C19.eagle.*', 'random': 'C19.*.continuous_in_unit_cube, C19.*.randomness_only_from_seed',
+    'categorical': 'C19.eagle.suggest.categorical_valid, C19.eagle.DefaultRandomSampler.categorical_valid, C19.random.suggest.categorical_valid',
+    'conformance_test_ran': 'the conformance test itself',
+}
+
+
+def start_conformance(tier):
+    env = dict(os.environ)
+    env['VERIF_REPO'] = source.REPO
+    os.makedirs(OUT, exist_ok=True)
+    return subprocess.Popen([VENV_PY, CONFORMANCE, tier], stdout=subprocess.PIPE, stderr=subprocess.PIPE, text=True, env=env, cwd=VERIF)
+
+
+def finish_conformance(chk, proc, tier):
+    try:
+        out, err = proc.communicate(timeout=600)
+    except subprocess.TimeoutExpired:
+        proc.kill()
+        chk.error('C19.conformance', 'the native conformance test timed out')
+        return
+    res = None
+    for line in reversed((out or '').strip().splitlines()):
+        if line.startswith('{'):
+            try:
+                res = json.loads(line)
+            except ValueError:
+                pass
+            break
+    if res is None:
+        chk.error('C19.conformance', 'the native conformance test produced no result: rc=%s %s' % (proc.returncode, (err or '')[-500:]))
+        return
+    failed = {k: v for k, v in res.items() if not v.get('ok')}
+    chk.extra['conformance'] = {'contracts_tested': len(res), 'cases': sum(v.get('cases', 0) for v in res.values()), 'failed': sorted(failed)}
+    chk.bounded_standin('C19.conformance: every assumed jnp / lax / jax.random / tfd.Categorical contract of pyvc/jx_model.py against the real library',
+                        '%d contracts, %d native cases (%s tier)' % (len(res), sum(v.get('cases', 0) for v in res.values()), tier),
+                        'held' if not failed else 'FAILED: %s' % sorted(failed))
+    for k, v in sorted(failed.items()):
+        users = CONTRACT_USERS.get(k.split('.')[0], 'obligations of contracts/c19.py')
+        chk.obligation('C19.assumed_contract.%s' % k, 'pyvc/jx_model.py', 'native conformance test', report.VIOLATED, 0.0,
+                       detail={'assumption_used_by': users, 'native_counterexample': v.get('detail')},
+                       model=json.dumps(v.get('detail'))[:3000], replay={'driver': 'replay/c19_conformance.py', 'contract': k, 'counterexample': v.get('detail')},
+                       reproduced=True)
+
+
+# ------------------------------------------------------------------------------------------ main
+F_PRIOR = ('prior features are scored but their rewards never reach the best results (vectorized_base.py: "TODO: Consider initializing with prior '
+           'features/rewards"): the optimizer can return a result worse than the best prior point it was seeded with (always with the random '
+           'strategy, which ignores priors; with Eagle when max_evaluations < pool size)')
+F_PLACEHOLDER = ('the best-results buffer starts as `count` all-zero candidates with reward -inf that were never evaluated; they are returned when '
+                 'count exceeds the number of evaluated candidates (or ties with genuine -inf scores): the reported reward -inf is not the score '
+                 'of the returned all-zero candidate')
+F_RANDNORM = ('MutateNormalizationType.RANDOM divides the random pull / push weight matrix by its row sum, which is 0 for a firefly without a '
+              'positive pull (e.g. all pool rewards non-finite): 0/0 = NaN reaches the continuous features, jnp.clip keeps NaN, and NaN '
+              'candidates are returned')
+
+FINDINGS = {
+    'C19._update_best_results.topk': F_NAN, 'C19._update_best_results.best_never_decreases': F_NAN,
+    'C19.__call__.not_worse_than_best_prior': F_PRIOR, 'C19.__call__.reward_is_score_of_candidate': F_PLACEHOLDER,
+    'C19.random.suggest.result_shapes': F_RANDPAD, 'C19.random.declares_real_feature_counts': F_RANDPAD,
+    'C19.factory[random].optimizer_masks_exactly_the_padding': F_RANDPAD,
+    'C19.eagle.suggest.continuous_not_nan[RANDOM]': F_RANDNORM,
+}
+
+
+def open_findings(chk, names):
+    """the recorded OPEN findings among `names` (known_findings.d/C19.json); a finding that is not recorded is never assumed."""
+    out = {}
+    for n in names:
+        f = chk.finding_for(n)
+        if f is not None:
+            out[n] = f.get('what', FINDINGS.get(n, n))
+    return out
+
+
+def nan_obligations(chk, pv, modes, classes):
+    """C19.eagle.suggest.continuous_not_nan[<normalization>]: NaN is not among the value classes of the returned continuous
+    features (abstract interpretation of the same symbolic paths; together with continuous_in_unit_cube_or_nan: inside [0, 1])."""
+    fn = EAGLE + '.suggest'
+    by_norm = {}
+    for label, ks in classes.items():
+        norm = label[len('suggest['):].split(',')[0]
+        by_norm.setdefault(norm, []).extend(ks)
+    for norm, kss in sorted(by_norm.items()):
+        name = 'C19.eagle.suggest.continuous_not_nan[%s]' % norm
+        t0 = time.time()
+        detail = {'paths': len(kss), 'classes': sorted({k for ks in kss if ks is not None for k in ks}), 'assumption': J.A_LAPLACE}
+        if any(ks is None for ks in kss):
+            chk.obligation(name, fn, 'value classes', report.UNDECIDED, 0.0, detail=dict(detail, reason='no returned features on some path'))
+            continue
+        free = all('nan' not in ks for ks in kss)
+        finding = chk.finding_for(name)
+        if free:
+            if finding is not None:
+                print('NOTE: known finding no longer reproduced by the check (stale): property=C19 obligation=%s' % name)
+            chk.obligation(name, fn, 'value classes (z3-derived transformers)', report.PROVED, time.time() - t0, detail=detail)
+            continue
+        if finding is not None:
+            chk.obligation(name, fn, 'value classes (z3-derived transformers)', report.KNOWN, 0.0, detail=detail, finding=finding.get('what', F_RANDNORM))
+            # residual: the same analysis when no self-normalisation x / jnp.sum(x, ...) divides by zero
+            J.RESIDUAL_SELFNORM[0] = True
+            try:
+                res_ok, npaths, sites = True, 0, 0
+                for m in [m for m in modes if m[0] == norm]:
+                    for p in E.explore(suggest_entry(None, *m), max_paths=400):
+                        if p.kind != 'return':
+                            continue
+                        npaths += 1
+                        sites += len(getattr(p.run, 'jx_selfnorm', []))
+                        ks = suggest_classes(p)
+                        res_ok = res_ok and ks is not None and 'nan' not in ks
+            finally:
+                J.RESIDUAL_SELFNORM[0] = False
+            chk.obligation(name + '.residual', fn, 'value classes (z3-derived transformers)', report.PROVED if res_ok else report.UNDECIDED, time.time() - t0,
+                           detail={'clause': 'no NaN when no self-normalisation x / jnp.sum(x, axis, keepdims=True) divides by zero (outside the finding\'s witness class)',
+                                   'paths': npaths, 'self_normalisation_sites': sites})
+            continue
+        # "may be NaN" is not a refutation: directed native search on the real code
+        rep, reproduced = battery_replay(name, None)
+        if reproduced:
+            chk.obligation(name, fn, 'value classes + native battery', report.VIOLATED, 0.0, detail=detail, model='value classes of the returned continuous '
+                           'features: %s' % detail['classes'], replay=rep, reproduced=True)
+        else:
+            chk.obligation(name, fn, 'value classes (z3-derived transformers)', report.UNDECIDED, 0.0,
+                           detail=dict(detail, reason='NaN is among the possible value classes; the native battery found no failing input'))
+
+
+FACTORY_LAYOUTS = [(2, 1, 0, 0, 5), (0, 2, 1, 0, 25), (3, 0, 0, 1, 7), (1, 3, 2, 3, 1), (1, 0, 0, 0, 25)]      # (n_cont, n_cat, pad_cat, pad_cont, batch)
+
+
+def factories(chk, pv, quick):
+    """bounded: the factories establish the class invariants assumed in sections B-D, on enumerated layouts (category counts symbolic)."""
+    layouts = FACTORY_LAYOUTS[:3] if quick else FACTORY_LAYOUTS
+    sub = report.Check('C19', chk.tier)
+    sub.findings = chk.findings
+    pv2 = Prover(sub, chk.tier)
+    ent = [('eagle n_cont=%d n_cat=%d pad_cat=%d pad_cont=%d batch=%d' % l, factory_entry('eagle', l[1], l[2], {'nc': l[0], 'padc': l[3], 'B': l[4]})) for l in layouts]
+    ent += [('random n_cat=%d pad_cat=%d' % (l[1], l[2]), factory_entry('random', l[1], l[2])) for l in layouts]
+    known = open_findings(chk, ['C19.factory[random].optimizer_masks_exactly_the_padding'])
+    pv2.run('VectorizedOptimizerFactory.__call__', ent, factory_post, twins=ent, findings=known, replay=battery_replay)
+    bad = [o for o in sub.obligations if o['result'] in (report.VIOLATED, report.UNDECIDED, report.ERROR)]
+    for o in sub.obligations:
+        if o['result'] == report.KNOWN:
+            chk.obligation(o['obligation'], o['function'], o['backend'], report.KNOWN, o['time_s'], detail=o.get('detail'), finding=o.get('finding'))
+        elif o['result'] == report.PROVED and o['obligation'].endswith('.residual'):
+            chk.obligation(o['obligation'], o['function'], o['backend'], report.PROVED, o['time_s'], detail=o.get('detail'))
+    for o in bad:
+        # a definite counterexample on an enumerated layout is a violation like any other
+        chk.obligation(o['obligation'], o['function'], o['backend'], o['result'], o['time_s'], detail=o.get('detail'),
+                       model=str(o.get('detail'))[:2000] if o['result'] == report.VIOLATED else None,
+                       replay={'driver': 'replay/c19_replay.py battery'} if o['result'] == report.VIOLATED else None)
+    chk.bounded_standin('C19.factory: VectorizedOptimizerFactory / VectorizedEagleStrategyFactory / random_strategy_factory establish the optimizer '
+                        'configuration and the Eagle class invariant (sizes, padding zeros, max size, pool size a multiple of the batch size)',
+                        '%d enumerated layouts (n_cont, n_cat, padding, batch), category counts symbolic' % len(layouts),
+                        'held' if not bad else 'FAILED: %s' % [o['obligation'] for o in bad],
+                        detail=[(o['obligation'], o['result']) for o in sub.obligations])
+
+
+def main(tier):
+    quick = tier == 'quick'
+    chk = report.Check('C19', tier, level='proof',
+                       technique='contract-based deductive verification: the real ASTs of vectorized_base / eagle_strategy / random_vectorized_optimizer '
+                                 'are executed symbolically (pyvc engine + pyvc/jx_model.py: arrays as total functions over symbolic shapes, jnp/lax/'
+                                 'jax.random/tfd primitives under assumed, natively conformance-tested contracts, score function uninterpreted, '
+                                 'fori_loop by invariant on the real body function, vmap point-wise); obligations discharged by z3; NaN-freedom by '
+                                 'value-class abstract interpretation with z3-derived transformers; determinism by read-frame analysis; open '
+                                 'obligations are decided on concrete shapes (quantifier-free, loops unrolled) and replayed natively')
+    proc = start_conformance(tier)
+    for t in J.TRUST:
+        chk.trust(t)
+    for t in AM.TRUST[:1]:
+        chk.trust(t)
+    chk.assume(A_MATH)
+    chk.assume(A_SCORE)
+    chk.assume(A_CONV)
+    chk.assume('prior features handed to the optimizer: every unpadded prior row is a valid point of the scaled search space (continuous in [0, 1], '
+               'categorical a category index); padded rows / positions may hold anything (NaN, -1)')
+    chk.assume('the Eagle configuration knobs are arbitrary finite numbers; prob_same_category_without_perturbation in (0, 1); the search space '
+               'has at least one feature; pool_size >= batch_size >= 1')
+    for mod, qual in ((VB, UBR), (VB, CALL), (VB, '_optimizer_to_model_input'), (VB, 'optimizer_to_model_input_single_array'),
+                      (VB, '_reshape_to_parallel_batches'), (VB, 'VectorizedOptimizerFactory.__call__'),
+                      (ES, EAGLE + '.suggest'), (ES, EAGLE + '._create_features'), (ES, EAGLE + '._create_logits_vector'),
+                      (ES, EAGLE + '._create_logits_one_feature'), (ES, EAGLE + '._create_categorical_feature_logits'),
+                      (ES, EAGLE + '._create_random_perturbations'), (ES, EAGLE + '.update'), (ES, EAGLE + '._update_pool_features_and_rewards'),
+                      (ES, EAGLE + '._trim_pool'), (ES, EAGLE + '.init_state'), (ES, EAGLE + '._populate_pool_with_prior_trials'),
+                      (ES, '_mask_flip'), (ES, '_compute_features_dist_squared'), (ES, 'DefaultRandomSampler.__call__'),
+                      (ES, 'DefaultProjection.__call__'), (ES, 'VectorizedEagleStrategyFactory.__call__'),
+                      (ES, 'compute_feature_dimensions_from_converter'), (RV, 'RandomVectorizedStrategy.__init__'),
+                      (RV, 'RandomVectorizedStrategy.suggest'), (RV, 'random_strategy_factory')):
+        chk.function(mod, qual)
+    pv = Prover(chk, tier)
+    E.MODELS.pop(UBR_KEY, None)
+
+    # ---- A. _update_best_results (real code, full functional contract)
+    known_a = open_findings(chk, ['C19._update_best_results.topk', 'C19._update_best_results.best_never_decreases'])
+    twins_a = [('count=%d,B=%d' % (c, b), ubr_entry({'count': c, 'B': b, 'P': 1, 'Dc': 1, 'Dk': 1})) for c, b in ((2, 2), (1, 1), (2, 1))]
+    pv.run(UBR, [('symbolic', ubr_entry())], ubr_post, twins=twins_a, findings=known_a, replay=ubr_replay)
+
+    # ---- B. __call__ against the strategy interface contract, with the contract of A as the model of _update_best_results
+    E.MODELS[UBR_KEY] = ubr_model
+    try:
+        combos = list(itertools.product([True, False], repeat=5))
+        if quick:
+            combos = [c for k, c in enumerate(combos) if (c[3] == c[0]) and (c[4] != c[1])]       # 8 configurations covering every flag pair-wise
+        entries = [('fori=%d,prior=%d,n_parallel=%d,seed=%d,aux=%d' % tuple(map(int, c)), call_entry(None, *c)) for c in combos]
+        tw = [('fori=1,prior=1,n_parallel=2,count=2,batch=1,iterations=2', call_entry({'count': 2, 'B': 1, 'P': 2, 'Dc': 2, 'Dk': 1, 'nc': 1, 'nk': 1, 'M': 2, 'Np': 4, 'No': 2},
+                                                                                 True, True, True, True, False)),
+              ('fori=0,prior=0,aux=1,count=1,batch=2,iterations=1', call_entry({'count': 1, 'B': 2, 'P': 1, 'Dc': 1, 'Dk': 2, 'nc': 1, 'nk': 1, 'M': 2, 'Np': 0, 'No': 0},
+                                                                               False, False, False, False, True))]
+        known_b = open_findings(chk, ['C19.__call__.not_worse_than_best_prior', 'C19.__call__.reward_is_score_of_candidate'])
+        pv.run(CALL, entries, call_post, twins=tw, findings=known_b, replay=battery_replay,
+               rename=lambda n: n.replace('VectorizedOptimizer.__call__.loop1.', 'C19.__call__.loop.pyloop.'))
+    finally:
+        E.MODELS.pop(UBR_KEY, None)
+
+    # ---- C. Eagle strategy meets the interface contract and keeps its state invariant
+    ctw = {'pool': 2, 'B': 1, 'P': 1, 'Dc': 1, 'Dk': 1, 'nc': 1, 'nk': 1, 'K': 2, 'n': 2, 'Nb': 3}
+    pv.run('DefaultProjection.__call__', [('symbolic', projection_entry())], projection_post, twins=[('concrete', projection_entry(ctw))], replay=battery_replay)
+    pv.run('DefaultRandomSampler.__call__', [('symbolic', sampler_entry())], sampler_post, twins=[('concrete', sampler_entry(ctw))], replay=battery_replay)
+    modes = [('MEAN', 'ADDITIVE'), ('RANDOM', 'ADDITIVE'), ('UNNORMALIZED', 'MULTIPLICATIVE')] if quick else \
+        [(a, b) for a in ('MEAN', 'RANDOM', 'UNNORMALIZED') for b in ('ADDITIVE', 'MULTIPLICATIVE')]
+    classes = {}
+
+    def observe(label, path):
+        if label.startswith('suggest['):
+            ks = suggest_classes(path)
+            classes.setdefault(label, []).append(ks)
+    pv.observer = observe
+    pv.run(EAGLE + '.suggest', [('suggest[%s,%s]' % m, suggest_entry(None, *m)) for m in modes], suggest_post,
+           twins=[('suggest[%s,%s] concrete' % m, suggest_entry(ctw, *m)) for m in modes[:2]], replay=battery_replay)
+    pv.observer = None
+    nan_obligations(chk, pv, modes, classes)
+    pv.run(EAGLE + '.update', [('update[%s,%s]' % m, update_entry(None, *m)) for m in modes[:1]], state_post('C19.eagle.update.'),
+           twins=[('concrete', update_entry(ctw))], replay=battery_replay)
+    pv.run(EAGLE + '.init_state', [('no prior', init_entry()), ('prior', init_entry(prior=True))], state_post('C19.eagle.init_state.'),
+           twins=[('no prior concrete', init_entry(ctw)), ('prior concrete', init_entry(ctw, prior=True))], replay=battery_replay)
+
+    # ---- D. random strategy and the factories
+    layouts = LAYOUTS_QUICK if quick else LAYOUTS_THOROUGH
+    known_d = open_findings(chk, ['C19.random.suggest.result_shapes', 'C19.random.declares_real_feature_counts'])
+    pv.run('RandomVectorizedStrategy.suggest', [('ncat=%d,padded_cat=%d' % l, random_entry(*l)) for l in layouts], random_post,
+           twins=[('ncat=%d,padded_cat=%d concrete' % l, random_entry(l[0], l[1], {'nc': 1, 'padc': 1, 'B': 2, 'P': 1, 'M': 2, 'sizes': [2, 3, 2]})) for l in layouts[:4]],
+           findings=known_d, replay=battery_replay)
+    factories(chk, pv, quick)
+
+    # ---- E. determinism
+    frame_obligations(chk)
+    chk.note('The symbolic results are functions of the PRNG key: jax.random.split/uniform/laplace are modelled as functions of their key, and '
+             'every key consumed is shown to derive from the seed argument (randomness_only_from_seed); together with the read-frame obligations '
+             'this is the "same seed, same candidates" clause. ')
+    finish_conformance(chk, proc, tier)
+    if not quick:
+        res = run_native(REPLAY, ['battery'], timeout=1800)
+        chk.bounded_standin('C19.battery: end-to-end native runs of the real optimizer (eagle and random strategy; 5 layouts incl. feature padding; 4 score '
+                            'functions incl. NaN / -inf; n_parallel None and 2), every clause of C19 re-checked by an independent predicate',
+                            '%s runs' % res.get('runs'), 'violations only from recorded findings: %s' % sorted(res.get('violated', {}))
+                            if 'violated' in res else 'error: %s' % res.get('error'), detail=res.get('violated'))
+    chk.note('Proof claim: for ALL shapes (counts, batch sizes, n_parallel, padded and real feature counts, category counts), all score functions and all '
+             'PRNG outputs of the documented ranges. Bounded (not in the claim): the factories / constructors (enumerated layouts). Not claimed: global '
+             '"best of everything evaluated" for count > 1 (needs a pigeonhole argument; the one-step top-k contract and the monotonicity of the best '
+             'reward are proved). ')
+    return chk.finish(min_obligations=60)
